@@ -72,6 +72,17 @@ CHECKS['C11'] = dict(
     note='importlib and packaging.version are external; the bundled sets are read from the tree by the harness (directory listing + import attempts).',
     design='§5 C11')
 
+CHECKS['C09'] = dict(
+    technique='Lean 4 theorems about the controller fold (deaths_ordered, achievements_count, shots_damage_sum, planes_count, roster_merge/roster_frame, field_frame_*, map_prefix/map_no_prefix, battle_result_last) + synthetic battles for every bundled version compared with the model and with a naive fold',
+    text='C09 theorems prove, for every event trace: the death list is the ordered sub-sequence of death events, achievement / plane / damage counters equal counts and sums over all matching events (counted each time), roster messages merge right-biased by id without touching other players, an event of one kind changes only its own fields, the map is the arena name minus the literal prefix. Tied to every bundled controller (76 wows, 2 wot, 3 wowp) by synthetic random battles encoded against that version\'s own definitions and packet numbering and parsed by ReplayParser(strict=True): summary through the shipped encoder vs the model\'s fold of the same events vs the generator\'s naive fold.',
+    note='partial: pickle and json are external; per-version argument shapes and key mappings are resolved by the generator (appendix C), the model is the fold all variants share; crew / tasks / control-point fields are read from the final world (covered by C05) and compared only for presence.',
+    design='§5 C09')
+CHECKS['C10'] = dict(
+    technique='Lean 4 theorems about Python call binding (too_many_positional, unknown_keyword, missing_required, exact_arguments_bind) + exhaustive enumeration of every bundled version x every registered subscription (model bind vs inspect.Signature.bind) + one complete battle per version in strict mode',
+    text='The binding rule for func(entity, *args, **kwargs) is a model function with theorems stating exactly when plain signatures accept a call; the instance over all bundled versions is enumerated exhaustively on every run: definitions load, controller constructible, every subscribed key exists in that version\'s definitions, the callback binds the declared positional count and keyword names (model and inspect agree), and a complete random battle parses in strict mode.',
+    note='exhaustive over the 82 bundled directories; signatures come from inspect, argument lists from the real Definitions; wowp 0_3_3 (no controller) is a known finding.',
+    design='§5 C10')
+
 PENDING_REASON = 'check not built yet in this revision (planned: see DESIGN.md §5); not claimed until its theorem + correspondence run on the unchanged tree'
 
 
